@@ -23,7 +23,7 @@ TECHNIQUE = "property-based differential testing: joint vs. alone vs. permuted v
 
 @st.composite
 def strategy(draw):
-    nrec = draw(st.sampled_from([1, 2, 3, 4, 4, 5, 5, 6, 7]))
+    nrec = draw(st.sampled_from([1, 2, 3, 4, 4, 5, 5, 6, 7, 4, 5, 6, 24, 40]))      # rarely: long lists
     ndt = draw(st.sampled_from([1, 2, 2, 3, 3]))
     dts = draw(st.lists(st.sampled_from(gen.DTS), min_size=ndt, max_size=ndt, unique=True))
     if ndt >= 2 and draw(gen.chance(5)):
